@@ -199,6 +199,23 @@ def build(t):
     return c
 
 
+def twin(t):
+    """another array type with the same generated class name (same item, same dims) but another axis order"""
+    assert t[0] == "A" and len(t[2]) >= 2
+    order = tuple(reversed(t[3])) if tuple(reversed(t[3])) != tuple(t[3]) else tuple(t[3][1:]) + tuple(t[3][:1])
+    return ("A", t[1], t[2], order)
+
+
+def build_as(t, name):
+    """a struct class for AST t under a caller-chosen class name (to make two different layouts share a name)"""
+    import xobjects as xo
+
+    assert t[0] == "St"
+    c = type(name, (xo.Struct,), {n: build(ft) for n, ft in t[1]})
+    _cache[t] = c
+    return c
+
+
 def member_names(t):
     return [build(m).__name__ for m in t[1]]
 
@@ -464,21 +481,23 @@ def py_expressible(t, v):
     return True
 
 
-ND_FORMS = ("nd", "ndF", "ndS", "ndD", "ndR")
+ND_FORMS = ("nd", "ndF", "ndS", "ndD", "ndR", "ndFD", "ndTD")
 
 
 def nd_array(kind, v, form):
     shape = v["shape"]
     dt = np.dtype(NPDT[kind])
-    if form == "ndD":  # other dtype, values representable in both
+    if form in ("ndD", "ndFD", "ndTD"):  # other dtype, values representable in both
         dt = np.dtype("<f8") if kind[0] != "f" else np.dtype("<f4" if kind == "f64" else "<f8")
         if kind in ("i64", "u64"):
             dt = np.dtype("<i4") if kind == "i64" else np.dtype("<u4")
     a = np.zeros(shape, dtype=dt)
     for idx, iv in v["items"].items():
         a[idx] = iv
-    if form == "ndF":
+    if form in ("ndF", "ndFD"):
         a = np.asfortranarray(a)
+    elif form == "ndTD":  # a transposed view of a C-contiguous array of another dtype
+        a = np.ascontiguousarray(a.T).T
     elif form == "ndS":  # strided view of a larger array
         big = np.zeros(tuple(2 * s + 1 for s in shape), dtype=dt)
         sl = tuple(slice(1, 1 + 2 * s, 2) for s in shape)
@@ -490,7 +509,7 @@ def nd_array(kind, v, form):
 
 
 def nd_representable(kind, v, form):
-    if form != "ndD":
+    if form not in ("ndD", "ndFD", "ndTD"):
         return True
     vals = list(v["items"].values())
     if kind[0] == "f":
@@ -740,13 +759,20 @@ class Part:
         return "Part(%r,%s,%d,%d,%s)" % (self.path, show(self.t) if self.t else None, self.off, self.size, self.kind)
 
 
-def decode(t, b, o, parts=None, path=(), lo=0, hi=None, follow=True):
+def decode(t, b, o, parts=None, path=(), lo=0, hi=None, follow=True, issues=None):
     """Decode the object of type t at offset o of bytes b according to the documented layout.
-    Returns (value, size).  Appends Part records (absolute offsets).  [lo,hi) bounds every access."""
+    Returns (value, size).  Appends Part records (absolute offsets).  [lo,hi) bounds every access.
+    Deviations that do not prevent decoding (a string size that is not a whole number of slots, a part that starts
+    off a slot boundary) are appended to `issues` as (clause, message) when a list is given, and raised otherwise."""
     if hi is None:
         hi = len(b)
     if parts is None:
         parts = []
+
+    def soft(clause, msg):
+        if issues is None:
+            raise Bad(clause, msg)
+        issues.append((clause, msg))
 
     def chk(off, n, what):
         if off < lo or off + n > hi:
@@ -763,7 +789,7 @@ def decode(t, b, o, parts=None, path=(), lo=0, hi=None, follow=True):
         if sz < 9 or sz > hi - o:
             raise Bad("string-size", "string at %d has size word %d" % (o, sz))
         if sz % 8:
-            raise Bad("slot", "string size %d is not a whole number of slots" % sz)
+            soft("string-slots", "string size %d is not a whole number of slots" % sz)
         raw = bytes(b[o + 8 : o + sz])
         if b"\x00" not in raw:
             raise Bad("string-nul", "string at %d not NUL terminated within its size %d" % (o, sz))
@@ -782,7 +808,7 @@ def decode(t, b, o, parts=None, path=(), lo=0, hi=None, follow=True):
         if not dyn:
             off = 0
             for n, ft in fields:
-                v, _ = decode(ft, b, o + off, parts, path + (n,), lo, hi, follow)
+                v, _ = decode(ft, b, o + off, parts, path + (n,), lo, hi, follow, issues)
                 out[n] = v
                 off += slot(static_size(ft))
             parts.append(Part(path, t, o, off, "struct"))
@@ -793,7 +819,7 @@ def decode(t, b, o, parts=None, path=(), lo=0, hi=None, follow=True):
         off = 8
         for i, (n, ft) in enumerate(fields):
             if i not in dyn:
-                v, _ = decode(ft, b, o + off, parts, path + (n,), lo, hi, follow)
+                v, _ = decode(ft, b, o + off, parts, path + (n,), lo, hi, follow, issues)
                 out[n] = v
                 off += slot(static_size(ft))
         table = off
@@ -808,8 +834,8 @@ def decode(t, b, o, parts=None, path=(), lo=0, hi=None, follow=True):
                 if foff != cur:
                     raise Bad("struct-offsets", "offset word of dynamic field %s is %d, documented position is %d" % (n, foff, cur))
             if foff % 8:
-                raise Bad("slot", "field %s at +%d not on a slot boundary" % (n, foff))
-            v, sz = decode(ft, b, o + foff, parts, path + (n,), lo, min(hi, o + size), follow)
+                soft("field-slot", "field %s at +%d not on a slot boundary" % (n, foff))
+            v, sz = decode(ft, b, o + foff, parts, path + (n,), lo, min(hi, o + size), follow, issues)
             out[n] = v
             cur = foff + slot(sz)
         if cur != size:
@@ -866,15 +892,15 @@ def decode(t, b, o, parts=None, path=(), lo=0, hi=None, follow=True):
                 if ioff != cur:
                     raise Bad("item-offsets", "item %r offset word %d != documented position %d (table in memory order)" % (idx, ioff, cur))
                 if ioff % 8:
-                    raise Bad("slot", "item %r at +%d not on a slot boundary" % (idx, ioff))
-                v, sz = decode(it, b, o + ioff, parts, path + (idx,), lo, ahi, follow)
+                    soft("item-slot", "item %r at +%d not on a slot boundary" % (idx, ioff))
+                v, sz = decode(it, b, o + ioff, parts, path + (idx,), lo, ahi, follow, issues)
                 items[idx] = v
                 cur = ioff + sz
             end = slot(cur)
         else:
             for idx in np.ndindex(*shape):
                 pos = sum(i * s for i, s in zip(idx, strides))
-                v, _ = decode(it, b, o + off + pos, parts, path + (idx,), lo, ahi, follow)
+                v, _ = decode(it, b, o + off + pos, parts, path + (idx,), lo, ahi, follow, issues)
                 items[idx] = v
             end = slot(off + n * isz)
         if size is not None and size != end:
@@ -890,7 +916,7 @@ def decode(t, b, o, parts=None, path=(), lo=0, hi=None, follow=True):
             return ("@", o + rel), 8
         if o + rel < 0 or o + rel >= len(b):
             raise Bad("ref-target", "reference at %d points to %d outside the buffer" % (o, o + rel))
-        v, _ = decode(t[1], b, o + rel, parts, path + ("*",), 0, len(b), follow)
+        v, _ = decode(t[1], b, o + rel, parts, path + ("*",), 0, len(b), follow, issues)
         return v, 8
     if k == "U":
         rel, tid = i64(b, o), i64(b, o + 8)
@@ -905,6 +931,6 @@ def decode(t, b, o, parts=None, path=(), lo=0, hi=None, follow=True):
             return ("@", o + rel, tid), 16
         if o + rel < 0 or o + rel >= len(b):
             raise Bad("ref-target", "union reference at %d points to %d outside the buffer" % (o, o + rel))
-        v, _ = decode(t[1][tid], b, o + rel, parts, path + ("#",), 0, len(b), follow)
+        v, _ = decode(t[1][tid], b, o + rel, parts, path + ("#",), 0, len(b), follow, issues)
         return (tid, v), 16
     raise ValueError(t)
